@@ -35,7 +35,11 @@ func isNamed(t types.Type, pkgPath, name string) bool {
 	if !ok {
 		return false
 	}
-	if n.Obj().Name() != name {
+	nm := n.Obj().Name()
+	if old, ok := canonTypes[n.Obj()]; ok {
+		nm = old
+	}
+	if nm != name {
 		return false
 	}
 	if n.Obj().Pkg() == nil {
@@ -55,7 +59,7 @@ func isContextType(t types.Type) bool { return isNamed(t, "context", "Context") 
 // calleeString names what a call invokes: "pkg.Func", "(*pkg.T).M", "iface:(pkg.I).M", "dynamic:<sig>", "builtin:x".
 func calleeString(c *ssa.CallCommon) string {
 	if c.IsInvoke() {
-		return "iface:(" + relType(c.Value.Type()) + ")." + c.Method.Name()
+		return "iface:(" + relType(c.Value.Type()) + ")." + methodName(c.Method)
 	}
 	switch v := c.Value.(type) {
 	case *ssa.Builtin:
@@ -84,6 +88,9 @@ func relType(t types.Type) string {
 		}
 		return strings.TrimPrefix(path, modulePath+"/")
 	})
+	for _, r := range typeRenameRx {
+		s = replaceWord(s, r.from, r.to)
+	}
 	return s
 }
 
@@ -102,7 +109,7 @@ func calleeFullName(c *ssa.CallCommon) string {
 		return f.String()
 	}
 	if c.IsInvoke() {
-		return "(" + c.Value.Type().String() + ")." + c.Method.Name()
+		return "(" + c.Value.Type().String() + ")." + methodName(c.Method)
 	}
 	return ""
 }
@@ -959,4 +966,54 @@ func paramIndex(fn *ssa.Function, prm *ssa.Parameter) int {
 		}
 	}
 	return -1
+}
+
+// dependsOnValue: v is computed from x (operands, call arguments, loads through x), depth-limited.
+func dependsOnValue(v, x ssa.Value, d int) bool {
+	if v == nil || d > 6 {
+		return false
+	}
+	if sameVar(v, x) {
+		return true
+	}
+	switch t := v.(type) {
+	case *ssa.Call:
+		for _, a := range t.Common().Args {
+			if dependsOnValue(a, x, d+1) {
+				return true
+			}
+		}
+		if t.Common().IsInvoke() {
+			return dependsOnValue(t.Common().Value, x, d+1)
+		}
+	case *ssa.BinOp:
+		return dependsOnValue(t.X, x, d+1) || dependsOnValue(t.Y, x, d+1)
+	case *ssa.UnOp:
+		return dependsOnValue(t.X, x, d+1)
+	case *ssa.FieldAddr:
+		return dependsOnValue(t.X, x, d+1)
+	case *ssa.Field:
+		return dependsOnValue(t.X, x, d+1)
+	case *ssa.IndexAddr:
+		return dependsOnValue(t.X, x, d+1)
+	case *ssa.Phi:
+		for _, e := range t.Edges {
+			if dependsOnValue(e, x, d+1) {
+				return true
+			}
+		}
+	case *ssa.Convert:
+		return dependsOnValue(t.X, x, d+1)
+	case *ssa.ChangeType:
+		return dependsOnValue(t.X, x, d+1)
+	case *ssa.ChangeInterface:
+		return dependsOnValue(t.X, x, d+1)
+	case *ssa.MakeInterface:
+		return dependsOnValue(t.X, x, d+1)
+	case *ssa.TypeAssert:
+		return dependsOnValue(t.X, x, d+1)
+	case *ssa.Extract:
+		return dependsOnValue(t.Tuple, x, d+1)
+	}
+	return false
 }
